@@ -685,8 +685,10 @@ func (c *HAConfig) NormalForm(opt *NFOptions) NF {
 					cookie = ""
 				}
 				name := ""
-				if s.Kind != "backend" || strings.HasPrefix(s.Name, "_") || sv.Template {
-					name = sv.Name // support backends: names are fixed labels
+				if s.Kind != "backend" || strings.HasPrefix(s.Name, "_") || sv.Template || (opt != nil && opt.RuntimeView) {
+					// support backends: names are fixed labels. Running state against the files of the same
+					// controller (C02): the slot a server sits in is part of what must agree
+					name = sv.Name
 					if an, ok := authName[name]; ok {
 						name = an
 					}
